@@ -539,6 +539,12 @@ pub fn run(tier: Tier) -> i32 {
     );
     ev.assume("stack size of the generating thread is 8 MiB (what a CLI main thread has)");
     let bases = seed_corpus(tier);
+    let mut reported: BTreeSet<String> = BTreeSet::new();
+    // the coverage-guided campaign runs first, while this process is still small: libFuzzer reads its
+    // peak RSS with getrusage, and a child inherits the peak of the process that spawned it
+    if tier == Tier::Thorough || std::env::var("VH_C13_FUZZ").is_ok() {
+        fuzz_phase(&mut ev, &findings, &bases, &mut reported);
+    }
     let n = tier.pick(6_000, 80_000);
     let mut runner = crate::common::runner("C13");
     let strat = arb_case(bases.len());
@@ -557,7 +563,6 @@ pub fn run(tier: Tier) -> i32 {
     sets.extend(bases.iter().map(|b| b.1.clone())); // the unmutated seeds themselves
     let outs = worker::run_all(&sets, 16);
 
-    let mut reported: BTreeSet<String> = BTreeSet::new();
     let mut fail_idx: Vec<(usize, String, String)> = vec![];
     for (i, out) in outs.iter().enumerate() {
         let (label, kinds): (String, Vec<&str>) = if i < cases.len() {
@@ -610,9 +615,6 @@ pub fn run(tier: Tier) -> i32 {
         }
         let fs_json = if fs.total_len() < 400_000 { json!(fs) } else { json!({"too_large": true, "start": fs.start}) };
         route_failure(&mut ev, &findings, "crash", &sig, json!({"fileset": fs_json, "detail": detail}));
-    }
-    if tier == Tier::Thorough || std::env::var("VH_C13_FUZZ").is_ok() {
-        fuzz_phase(&mut ev, &findings, &bases, &mut reported);
     }
     ev.finish()
 }
@@ -699,6 +701,8 @@ fn fuzz_phase(ev: &mut Evidence, findings: &Findings, bases: &[(String, FileSet)
         .current_dir(&scratch)
         .output();
     let log = out.map(|o| String::from_utf8_lossy(&o.stderr).to_string()).unwrap_or_default();
+    // kept for triage (overwritten by the next run)
+    let _ = std::fs::write(Path::new(crate::common::VERIF).join("harness/target/c13-fuzz-last.log"), &log);
     // "#12345: cov: 4321 ft: 9999 corp: 321 exec/s 100 ..."
     let (mut execs, mut cov, mut ft) = (0u64, 0u64, 0u64);
     for l in log.lines() {
